@@ -7,8 +7,9 @@ export VERIF_DIR="${VERIF_DIR:-$(dirname "$HERE")}"
 export CARGO_NET_OFFLINE=true
 MODE="${1:-quick}"
 BASEFLAGS="--cfg raptorq_verif --cfg raptorq_verif_shuttle"
-build() { # $1 = small|cap64
+build() { # $1 = small|smallchk|cap64
   local flags="$BASEFLAGS"; [ "$1" = small ] && flags="$flags --cfg raptorq_verif_smallcache"
+  [ "$1" = smallchk ] && flags="$flags --cfg raptorq_verif_smallcache -C debug-assertions=on -C overflow-checks=on"
   mkdir -p "$HERE/target"
   ( cd "$HERE" && RUSTFLAGS="$flags" cargo build --quiet --release --target-dir "$HERE/target/$1" ) >"$HERE/target/build-$1.log" 2>&1 || {
     echo "HARNESS-ERROR: build of c17 ($1) failed; see $HERE/target/build-$1.log" >&2; tail -n 30 "$HERE/target/build-$1.log" >&2; exit 2; }
@@ -18,18 +19,20 @@ case "$MODE" in
     FILE="$2"
     FL=$(python3 -c "import json,sys; print(json.load(open(sys.argv[1]))['scenario'].get('flavour','smallcache'))" "$FILE") || exit 2
     if [ "$FL" = cap64 ]; then build cap64; exec "$HERE/target/cap64/release/c17" replay "$FILE"
+    elif [ "$FL" = smallcache-checked ]; then build smallchk; exec "$HERE/target/smallchk/release/c17" replay "$FILE"
     else build small; exec "$HERE/target/small/release/c17" replay "$FILE"; fi ;;
   quick|thorough)
     T0=$(date +%s.%N)
-    rm -f "$HERE/target/evidence-smallcache.json" "$HERE/target/evidence-cap64.json"
-    build small; build cap64
+    rm -f "$HERE/target/evidence-smallcache.json" "$HERE/target/evidence-cap64.json" "$HERE/target/evidence-smallcache-checked.json"
+    build small; build cap64; build smallchk
     RC=0
     "$HERE/target/small/release/c17" "$MODE"; R1=$?
     # a violation in the capacity-3 flavour is reported at once; the shipped-capacity flavour
-    # (slower per execution) only runs when the first one is clean
+    # (slower per execution) and the debug-assertion flavour only run when the first one is clean
     if [ "$R1" -eq 0 ]; then "$HERE/target/cap64/release/c17" "$MODE"; R2=$?; else R2=0; fi
+    if [ "$R1" -eq 0 ] && [ "$R2" -eq 0 ]; then "$HERE/target/smallchk/release/c17" "$MODE"; R4=$?; else R4=0; fi
     LIMIT=0
-    for r in $R1 $R2; do [ "$r" -eq 2 ] && exit 2; [ "$r" -eq 3 ] && LIMIT=1; [ "$r" -eq 1 ] && RC=1; done
+    for r in $R1 $R2 $R4; do [ "$r" -eq 2 ] && exit 2; [ "$r" -eq 3 ] && LIMIT=1; [ "$r" -eq 1 ] && RC=1; done
     # sequential request histories against the real (non-shuttle) cache: rqsim, release/std flavour
     rm -f "$HERE/target/evidence-sequential.json"
     if [ "$RC" -eq 0 ]; then
